@@ -424,7 +424,7 @@ def announced_values_rule(eng: Engine, ck: Check):
             ok, why = False, f'no store of {fld}'
             for e in cands:
                 conds = set(e['if'])
-                extra = {c for c in conds if not peer_known(c) and c not in needed and not unchanged_skip(c, fld, e['value'])}
+                extra = {c for c in conds if not peer_known(c) and c not in needed and not unchanged_skip(c, fld, e.get('value_full', e['value']))}
                 if needed <= conds and not extra and not e['each']:
                     ok = True
                 else:
